@@ -167,6 +167,7 @@ def run(ctx):
 
     # ---- predicates -------------------------------------------------------------------------
     refuted_by_points = _predicate_points(ctx, L)
+    shape_undecided = []
     causal_sets = {}
     for g, mods in (("planar", ("is_parallel", "is_antiparallel", "is_perpendicular")),
                     ("spatial", ("is_parallel", "is_antiparallel", "is_perpendicular")),
@@ -185,9 +186,11 @@ def run(ctx):
                     # outside the linear shape: refute against the documented predicate on a grid of the lifted symbols, else give up (exit 2)
                     w = _predicate_counterexample(g, e, outs[0], (kind, (Fraction(kappa[0]), Fraction(kappa[1]))))
                     if w is None:
-                        if e.name in refuted_by_points:
-                            continue  # already reported with a concrete operand pair by C13.predicate-points
-                        raise
+                        if e.name not in refuted_by_points:
+                            # an algebraic form outside the linear shape that agrees with the documented predicate at every probed
+                            # operand pair (C13.predicate-points): not claimed for all operands, not an alarm
+                            shape_undecided.append(e.name)
+                        continue
                     ctx.ob("C13.predicate-shape", e.name, False,
                            f"predicate is {w['got']} at {w['at']} where the documented predicate ({text}, A = |tolerance|) is {w['want']}; {err}",
                            w, fn_where(e.fn))
@@ -209,6 +212,9 @@ def run(ctx):
                        f"{names[i]} and {names[j]} are both true for {ov}", {"a": _show_set(a), "b": _show_set(b)})
     for u in sorted(undecided):
         ctx.decline(u)
+    ctx.analysed["predicate_shape_undecided"] = shape_undecided
+    if shape_undecided:
+        ctx.decline("C13.predicate-shape: not in the linear shape a*S + (b0 + b1*|tol|)*W, decided only at the probed operand pairs (C13.predicate-points): " + ", ".join(shape_undecided))
     _forwarding(ctx)
     _beta_gamma(ctx, L)
     from .. import singular
